@@ -99,6 +99,11 @@ BATCHES = {
          None, None, "chain-depth"),
         ("C23", "reload keeps the old router", R + "engine/mod.rs",
          "        self.router = new_engine.router;\n", "", ""),
+        ("C37", "create_connector ignores a failed replication", K + "api.rs",
+         "            connector: body.clone(),\n        };\n        if let Err(e) = handle.raft.client_write(cmd).await {\n            return Ok(cluster_error_response(ClusterError::NotLeader(\n                e.to_string(),\n            )));\n        }\n    }\n\n    match coord.create_connector(body) {",
+         "            connector: body.clone(),\n        };\n        let _ = handle.raft.client_write(cmd).await;\n    }\n\n    match coord.create_connector(body) {", "handle_create_connector"),
+        ("C36", "apply_to_state_machine ignores the save_meta error", K + "raft/persistent_store.rs",
+         "        self.save_meta(KEY_LAST_MEMBERSHIP, &mem_data)?;\n\n        // Publish updated state", "        let _ = self.save_meta(KEY_LAST_MEMBERSHIP, &mem_data);\n\n        // Publish updated state", ""),
         ("C40", "cross-variant equality arm", "crates/varpulis-core/src/value.rs",
          "            (Value::Float(a), Value::Float(b)) => float_eq(*a, *b),\n", "            (Value::Float(a), Value::Float(b)) => float_eq(*a, *b),\n            (Value::Int(a), Value::Float(b)) => float_eq(*a as f64, *b),\n", ""),
     ],
